@@ -785,7 +785,7 @@ def run_all(res, tier, rng, tmpdir, quick):
         bt.add(d, hist, 'witness')
     # ---- (2) repo classes
     covered = set()
-    n_hist = 4 if quick else 60
+    n_hist = 3 if quick else 60
     n_cyc = 70 if quick else 400
     for label, getter, wires in repo_specs():
         r = rng.fork(('repo', label))
@@ -829,7 +829,7 @@ def run_all(res, tier, rng, tmpdir, quick):
         if not hit:
             res.notes.append(f'witness {cname} no longer reproduces {fid} (defect fixed or behaviour changed)')
     # ---- (4) generated classes
-    n_gen = dict(safe=110, wild=90, refuse=len(c02_gen.REFUSE_KINDS)) if quick else dict(safe=4000, wild=2500, refuse=5 * len(c02_gen.REFUSE_KINDS))
+    n_gen = dict(safe=90, wild=70, refuse=len(c02_gen.REFUSE_KINDS)) if quick else dict(safe=4000, wild=2500, refuse=5 * len(c02_gen.REFUSE_KINDS))
     chunk = 40
     idx = 0
     for profile in ('safe', 'wild', 'refuse'):
